@@ -94,7 +94,8 @@ def finish (acc : Acc) : Except Cls RObj :=
   let n := acc.natom
   .ok { atcoords := some [n, 3], atnums := some [n], atffparams := [n, n, n],
         extraAtom := [n, n] ++ (if acc.chain then [n] else []),
-        bonds := if acc.nbond > 0 then some [acc.nbond, 3] else none }
+        bonds := if acc.nbond > 0 then some [acc.nbond, 3] else none,
+        hasTitle := true, hasAtffparams := true, hasExtra := true }
 
 def loadOne (L : Layout) : RM RObj := fun l =>
   match loop L l.rest l.lineno {} with
